@@ -104,3 +104,8 @@ CHECKS["C20"] = {
          "creations/edits, request by path/id, un-request, merged listing) with a schedule slot after each, with and without an auto-sync predicate; 'never downloaded unless requested' is "
          "checked after every engine step and API call, un-request/listing contracts at the call, mirror/upload/in-sync conditions at quiescence.",
  "technique": "bounded exhaustive exploration; action sequences and schedule slots are z3 integer choices enumerated by solver-decided branching over the real SmartCloudSync engine; per-step and final oracles"}
+CHECKS["C15"] = {
+ "text": "Decidable part only (lock discipline by exhaustive path exploration, M2): every call into the shared state's mutation hooks made from EventManager.do, SyncManager.do, the "
+         "CloudSync application calls and the SmartCloudSync API, over all histories/schedules/call sequences in the bound, must happen while the calling thread owns state.lock (lockset "
+         "argument: lock ownership at a mutation is a property of one thread's path). The claim that real threaded executions reach C01-C04 is outside this technique and not claimed.",
+ "technique": "bounded exhaustive exploration of each thread entry point's paths (z3-enumerated histories, schedules, API call sequences) with a lock-ownership monitor on every state mutation hook"}
